@@ -1,5 +1,6 @@
 import CifModel.Lemmas.StoreWorld
 import CifModel.Lemmas.StoreWSim
+import CifModel.Props.C04
 /-
   Property C05 — a failed API call leaves the managed CIF unchanged.
 -/
@@ -274,6 +275,31 @@ theorem C05_next_call_unaffected (w : World) (op : Op) (ops : List Op) (hinv : W
         rw [h2] at this
         exact Same.sim this (hinv c s h1).txwf
   exact (run_wsim ops _ _ hw).1
+
+/-- C05_atomic over every world a history can reach (review gB, C05 M2): whatever ops came before — in or out of contract — a
+    call that does not return CIF_OK leaves the content and the BEGIN snapshot of every CIF what they were -/
+theorem C05_atomic_reachable (ops : List Op) (op : Op) (h : (step (run {} ops).1 op).2.rc ≠ some CIF_OK) (c' : Nat) :
+    SlotRel Same ((run {} ops).1.cifs.getD c' none) ((step (run {} ops).1 op).1.cifs.getD c' none) :=
+  C05_atomic _ op (C04_inv_gives_loop_keys _ (C04_inv_reachable ops {} WInv.empty)) h c'
+
+/-- … and the handle: cif_loop_set_category through a VALID handle that fails leaves the handle's cached category what it was
+    (review gB, C05 M1: through a STALE handle — its loop is gone — the C, loop.c:232, and so the model update the cached category
+    although the call fails with CIF_INVALID_HANDLE; that history is out of contract, `inContract`) -/
+theorem C05_failed_set_category_keeps_handle (s : Store) (l : LH) (cat : Option Str) (hg : Good s.db) (hv : l.validB s.db = true)
+    (c : Code) (hf : (Store.setCategory s l cat).2.2 = .error c) : (Store.setCategory s l cat).2.1 = l := by
+  obtain ⟨_, h2, h3⟩ := setCategory_spec s l cat hg hv
+  rw [h2]
+  rw [h3] at hf
+  obtain ⟨x, hx, k1, k2, _⟩ := LH.valid_of_validB hv
+  have hfind : (absS s.db).findLoop l.cid l.loopNum = some (absALoop s.db x) := by rw [← k1, ← k2]; exact findLoop_valid s.db hg.inv x hx
+  unfold specSetCategory at hf ⊢
+  rw [hfind] at hf ⊢
+  simp only [] at hf ⊢
+  split
+  · rfl
+  · rename_i hres
+    simp only [hres, Bool.false_eq_true, if_false] at hf
+    cases hf
 
 -- non-vacuity: a failing call inside and outside a transaction
 private def n (k o : Str) : Name := { key := k, orig := o, valid := true }
